@@ -530,3 +530,58 @@ def llvm_operator_rules(ck, rid, where):
                     ok = (fname == "llvm.ctpop.i8" and arg == ("trunc", A, ("type", 8))) or \
                          (fname == "llvm.ctpop.i%d" % W and arg in (("and_", A, ("const", W, 0xff)), ("and_", ("const", W, 0xff), A)))
             ck.ob(rid, "llvm:parity", ok, where, "parity at %d bits must be not(popcount(low byte of a) & 1); found %s" % (W, t))
+
+
+# ---------------------------------------------------------------------------------------------------------------------
+# explicit flag formulas (simp_flags): base formulas and the with-carry siblings
+
+def flag_formula_rules(ck, rid, where):
+    """The expression simp_flags builds for a flag operator, extracted as a term over symbolic operands (tt.flag_term).
+    (1) base formulas (carry / overflow of a + b and a - b, with r the result), up to commutativity:
+            ADD_CF = msb((a^b)^r ^ ((a^r) & ~(a^b)))     SUB_CF = msb((a^b)^r ^ ((a^r) & (a^b)))
+            ADD_OF = msb((a^r) & ~(a^b))                  SUB_OF = msb((a^r) & (a^b))
+    (2) with-carry siblings: FLAG_xxxWC_f(a, b, c) is FLAG_xxx_f(a, b) in which ONLY the result changes - r becomes a + b + zext(c),
+        resp. a - (b + zext(c)); every other occurrence of b stays b (folding the carry into the operand changes the a^b terms exactly
+        when b + c wraps)."""
+    A, B, C = Term("leaf", "a", 32), Term("leaf", "b", 32), Term("leaf", "c", 1)
+
+    def T(op, n):
+        try:
+            return tt.flag_term(ck.repo, op, [32, 32, 1][:n])
+        except UnboundLocal as e:
+            ck.ob(rid, "flags:%s" % op, False, where, "simp_flags(%s): %s" % (op, e))
+            return None
+        except Undetermined as e:
+            raise AnalysisError("simp_flags(%s): construct not understood by the partial evaluator (%s)" % (op, e))
+    op_ = lambda o, x, y: Term("op", o, x, y)
+    ab = op_("^", A, B)
+    ref = {}
+    for name, r in (("ADD", op_("+", A, B)), ("SUB", op_("-", A, B))):
+        third = ab if name == "SUB" else Term("op", "~", ab)
+        ref["FLAG_%s_CF" % name] = Term("msb", op_("^", op_("^", ab, r), op_("&", op_("^", A, r), third)))
+        ref["FLAG_%s_OF" % name] = Term("msb", op_("&", op_("^", A, r), third))
+    base = {}
+    for op, want in sorted(ref.items()):
+        t = T(op, 2)
+        base[op] = t
+        if t is not None:
+            ck.ob(rid, "flags:%s" % op, tt.ac_norm(t) == tt.ac_norm(want), where,
+                  "%s(a, b) is built as %s; the reference formula is %s" % (op, t, want))
+    zc = Term("zext", 32, C)
+    wc = {"ADD": (op_("+", A, B), [op_("+", op_("+", A, B), zc), op_("+", A, op_("+", B, zc))]),
+          "SUB": (op_("-", A, B), [op_("-", A, op_("+", B, zc)), op_("-", op_("-", A, B), zc)])}
+    for name, (r0, r1s) in sorted(wc.items()):
+        for f in ("CF", "OF"):
+            b0 = base.get("FLAG_%s_%s" % (name, f))
+            t = T("FLAG_%sWC_%s" % (name, f), 3)
+            if b0 is None or t is None:
+                continue
+            wants = [tt.ac_norm(tt.term_subst(b0, r0, r1)) for r1 in r1s]
+            ck.ob(rid, "flags:FLAG_%sWC_%s" % (name, f), tt.ac_norm(t) in wants, where,
+                  "FLAG_%sWC_%s(a, b, c) is built as %s: it must be FLAG_%s_%s(a, b) with only the result replaced by %s "
+                  "(the operand b itself stays b in the xor terms)" % (name, f, t, name, f, r1s[0]))
+    # sign / zero of the with-carry result
+    for op, n, want in (("FLAG_SIGN_SUB", 2, Term("msb", op_("-", A, B))),):
+        t = T(op, n)
+        if t is not None:
+            ck.ob(rid, "flags:%s" % op, tt.ac_norm(t) == tt.ac_norm(want), where, "%s is built as %s; expected %s" % (op, t, want))
